@@ -57,6 +57,20 @@ EXTRA_TEMPLATES = [
 ]
 
 
+# hand-written grammar texts at the limits of the libraries underneath (each must compile or be
+# rejected with a TextXError like every other text): limits of `re`, deep nesting, odd literals
+LIMIT_TEXTS = [
+    "A: 'x' a=/a{99999999999}/;",                    # repetition count beyond re's MAXREPEAT (OverflowError in re)
+    "A: a=/a{2,1}/;", "A: a=/(?P<n>a)(?P<n>b)/;", "A: a=/(?<=a+)b/;", "A: a=/[z-a]/;", "A: a=/\\1/;",
+    "A: a=/(?i)a/ b=/x(?i)y/;",                      # global flags not at the start
+    "A: " + "(" * 60 + "'a'" + ")" * 60 + ";",       # deep nesting
+    "A: 'a'" + "?" * 1 + ";", "A: ('a'*)*;", "A: ('a'?)+ 'b';",
+    "A: a=/" + "a" * 3000 + "/;", "A: '" + "x" * 3000 + "';",
+    "A: '\\u12';", "A: '\\N{NOT A NAME}';", "A: '\\x';", "A[ws='\\q']: 'a';", "A[split='']: ID;",
+    "A: a=[A:B:C];", "A: a=[B|ID|+m:^~x*.(..)];B:name=ID;", "A: a=[B|ID|'n'~];B:name=ID;",
+]
+
+
 def outcome(text, cfg):
     from textx import metamodel_from_str
     from textx.exceptions import TextXError
@@ -163,6 +177,14 @@ def main():
             key = re.sub(r"[0-9']+", '', b['detail'])[:60]
             seen.setdefault(key, b)
         chk.sample({'template': it[1] + '<%d>' % it[3] + it[2], 'texts': r['texts'], 'outcomes': r['outcomes']})
+    for text in LIMIT_TEXTS:
+        for cfg in CFGS:
+            kind, detail = outcome(text, cfg)
+            runs += 1
+            if kind == 'bad':
+                seen.setdefault(re.sub(r"[0-9']+", '', detail)[:60], {'text': text, 'cfg': cfg, 'detail': detail})
+    texts += len(LIMIT_TEXTS)
+    chk.cov['bounds']['limit_texts'] = len(LIMIT_TEXTS)
     for key, b in seen.items():
         fid = next((i for i, pred in KNOWN if pred(b['text'], b['detail'])), None)
         if fid and chk.is_known(fid):
